@@ -31,6 +31,27 @@ theorem C14_not_assign_forms :
     Gen.notSpellings = ["not", "NOT", "!"] ∧ Gen.assignSpellings = ["=", ":="] := by
   decide
 
+/-- Rust's `i as i32` on an `i64`: keep the low 32 bits (two's complement) -/
+def wrapI32 (i : Int) : Int := (i + 2147483648) % 4294967296 - 2147483648
+
+/-- **`.n` and `[n]` are the same index**: both parser functions read the integer with the same literal parser and
+    turn it into the `i32` index by the same conversion (generated from `parser.rs`: a change to one of the two sites
+    alone breaks this obligation) -/
+theorem C14_index_forms_convert_alike :
+    Gen.indexConversions.map (·.1) = ["dotted_property", "array_index"] ∧
+    (Gen.indexConversions.map (·.2)).eraseDups.length = 1 := by
+  decide
+
+/-- the conversion both forms use is the identity on every index that fits in 32 bits .. -/
+theorem wrapI32_small (i : Int) (h : -2147483648 ≤ i ∧ i < 2147483648) : wrapI32 i = i := by
+  unfold wrapI32; omega
+
+/-- .. and always lands in the i32 range -/
+theorem wrapI32_range (i : Int) : -2147483648 ≤ wrapI32 i ∧ wrapI32 i < 2147483648 := by
+  unfold wrapI32; omega
+
+example : wrapI32 4294967297 = 1 ∧ wrapI32 2147483648 = -2147483648 := by decide
+
 /-! ### (b) lexical layer -/
 
 /-- a piece of layout: blanks, tabs, line breaks and `#` comments up to the end of the line -/
